@@ -218,11 +218,22 @@ def run_split(inp, forced):
     sp = params(mode, thr, mn, mx)
     rec = []
     exc = None
+    # one parameter object serves every split of a simulation: half of the cases first run an edge split (two singular values,
+    # as at the end of a chain) on the SAME object, and no split may leave a trace on it
+    warm = rng.random() < 0.5
+    if warm:
+        small, _ = tensor_with_spectrum(nprng, 2, 2, 1, 1, [1.0, 0.5])
+        try:
+            tdvp_mod.split_mps_tensor(small, dist, sp, [2, 2], dynamic=dyn)
+        except Exception:  # noqa: BLE001, S110
+            pass
     with patched_svd(tdvp_mod, "robust_svd", rec, force=s if forced else None):
         try:
             a0, a1 = tdvp_mod.split_mps_tensor(tensor.copy(), dist, sp, [d0, d1], dynamic=dyn)
         except Exception as e:  # noqa: BLE001
             exc = type(e).__name__
+    params_after = (sp.trunc_mode, float(sp.threshold), int(sp.min_bond_dim), int(sp.max_bond_dim))
+    params_changed = params_after != (mode, float(thr), int(mn), int(mx))
     seen = rec[0] if rec else np.array(s)
     rule = "dw" if mode == "discarded_weight" else "rel"
     req = f"{rule} {ib.frac(thr)} {mn} {mx} | {ib.fracs(seen)}"
@@ -298,7 +309,10 @@ def run_split(inp, forced):
             if b0.shape != a0.shape or np.linalg.norm(th2 - theta) > 1e-9 * (1 + np.sqrt(tot)):
                 probs.append(f"distribution {other} gives a different product than {dist}")
         oracle = {"ok": not probs, "detail": "; ".join(probs) or f"err2={err2:.3e} tail={tail:.3e} keep={keep}"}
-    sig = f"{rule}:{len(seen)}:{impl}:{mn}:{mx}:{thr != 0}:{forced}"
+    if params_changed and oracle is not None:
+        oracle = {"ok": False, "detail": f"split_mps_tensor wrote to the shared parameter object: (trunc_mode, threshold, min_bond_dim, "
+                                         f"max_bond_dim) = {params_after} after the call, constructed with {(mode, thr, mn, mx)}; " + oracle["detail"]}
+    sig = f"{rule}:{len(seen)}:{impl}:{mn}:{mx}:{thr != 0}:{forced}:{warm}"
     return {"req": req, "impl": impl, "oracle": oracle, "edge": bool(edge), "sig": sig,
             "nontrivial": impl not in ("err",) and 0 < int(impl) < len(seen) if impl != "err" else True,
             "meta": {"mode": mode, "dyn": dyn, "dist": dist, "shape": [d0, d1, dl, dr]}}
